@@ -68,6 +68,7 @@ RATIO_MIN = 1000          # statement: n² ≥ 1000 × factor storage
 
 # Defects of /repo found by this check and not yet decided (see docs/BUILDER_NOTES.md): none for C19.
 PROVISIONAL_KNOWN = {}
+CALL_TIME_LIMIT_S = 90    # seconds per measured call (see time_guard)
 MEMORY_CAP = 3 << 30      # bytes of address space above the current size while the measured stream runs: a dense n × n array of a
                           # LARGE zoo operator (>= 3.2 GB) then fails with MemoryError at once — and is judged as the densification it is
 
@@ -345,7 +346,7 @@ def zoo(ctx, rnd=0, scale="small"):
     m4 = [(r(sz["k4"]), r(sz["k4"]), r(sz["k4"]), r(sz["k4"]))] + ([(8, 8, 8, 8)] if big else [])
     for a, b, c, e4 in m4:
         add(("kron", d(a), d(b, "psd"), d(c), d(e4, "psd")), "mm", "inv", "diag", "plu")
-        if big or scale == "large":
+        if big:
             add(("kron", d(a, "psd"), d(b, "psd"), d(c, "psd"), d(e4, "psd")), "mm", "rmm", "inv", "psd", "diag", "pow", "chol")
     # Kronecker with Diagonal / Identity factors
     a = r(sz["kd"])
@@ -630,6 +631,39 @@ def chain_check(T, m, S, fam, rule_log):
     return problems, text
 
 
+class CallTimeout(Exception):
+    pass
+
+
+class time_guard:
+    """a measured call that runs longer than `limit` seconds is interrupted (SIGALRM): on the unchanged tree every call of the
+    stream takes well under a second; a structured operator of the large size class that falls into a generic ITERATIVE rule
+    (Lanczos / Arnoldi on n ≈ 50 k) would otherwise run for hours.  Recorded as an error of the call (never as 'ok')."""
+
+    def __init__(self, limit):
+        self.limit = limit
+
+    def __enter__(self):
+        import signal
+        self.ok = False
+        try:
+            def on_alarm(signum, frame):
+                raise CallTimeout(f"the call did not return within {self.limit} s")
+            self.old = signal.signal(signal.SIGALRM, on_alarm)
+            signal.alarm(self.limit)
+            self.ok = True
+        except Exception:  # noqa: BLE001  (not the main thread)
+            pass
+        return self
+
+    def __exit__(self, *exc):
+        if self.ok:
+            import signal
+            signal.alarm(0)
+            signal.signal(signal.SIGALRM, self.old)
+        return False
+
+
 def measure(probe, thunk, top):
     probe.begin(top)
     tracemalloc.reset_peak()
@@ -638,7 +672,8 @@ def measure(probe, thunk, top):
     err = None
     out = None
     try:
-        out = thunk()
+        with time_guard(CALL_TIME_LIMIT_S):
+            out = thunk()
     except Exception as ex:  # noqa: BLE001
         err = f"{type(ex).__name__}: {str(ex)[:200]}"
     wall = time.perf_counter() - t0
@@ -1262,6 +1297,7 @@ def run(ctx):
             Z += zoo(ctx, 1) + zoo(ctx, 2) + zoo(ctx, 1, "large")
         Z.sort(key=lambda z: z["n"])      # small dimensions first: a densifying tree is caught cheaply, and its larger siblings
         failed_small = set()               # (same structure, same call) are then not run at all (`skipped_after_smaller_failure`)
+        failed_calls = set()
         skipped_siblings = 0
         cases = []
         for zi, z in enumerate(Z):
@@ -1307,7 +1343,9 @@ def run(ctx):
                         break
                     if z.get("scale") == "small" and not ctx.thorough and pres == "Auto":
                         continue        # … and the algorithm omitted / one concrete class; Auto() is run on the large class
-                    if (skeleton(e), cname) in failed_small:
+                    if (skeleton(e), cname) in failed_small or (z.get("scale") == "large" and cname in failed_calls):
+                        # the same call already densified on a smaller operator (of this structure / of any structure for the
+                        # large size class): the failing input is reported; running it on n ≈ 50 k would only take long
                         skipped_siblings += 1
                         continue
                     with memory_cap():
@@ -1316,8 +1354,11 @@ def run(ctx):
                     rec["zi"] = zi
                     rec["scale"] = z.get("scale", "small")
                     records.append({k: v for k, v in rec.items() if k != "expr"} | {"expr": e})
+                    if rec["status"] == "error":
+                        failed_small.add((skeleton(e), cname))
                     if rec["status"] == "violation":
                         failed_small.add((skeleton(e), cname))
+                        failed_calls.add(cname)
                         common.violation(ctx, dict(replay_payload(rec), flags=sorted(z["flags"])))
                         reported += 1
             for k in ("_A", "_V", "_tA", "_tV"):
